@@ -9,7 +9,7 @@ domain set-up).  Per batch of N markers the monitor
    documented window (index-1 … index+2) and compares it over the WHOLE grid with the independent
    closed-form delta ``prod_a phi((x_c - X_a)/dx)/dx^d`` (``rv.ref.ib``; phi from Peskin 2002, not from the
    source) — a shifted window shows up as mass in cells where the delta is exactly zero;
-2. checks sign (slack 4·eps·max w), ``sum w·dx^d = 1`` and (Peskin) the first moment about the marker using
+2. checks sign (slack 16·eps·max w), ``sum w·dx^d = 1`` and (Peskin) the first moment about the marker using
    the monitor's own cell coordinates, in long double;
 3. interpolates constants (both kernels, scalar and vector variant, different constant per component) and,
    for Peskin, the simulator's own ``position_field`` and a random affine field through the REAL
@@ -18,32 +18,41 @@ domain set-up).  Per batch of N markers the monitor
    "floor shifted by one" branch the source comment talks about); the run is INCONCLUSIVE when none did.
 
 Tolerances (noise floors; ``kap = |X|/dx + 2`` is the amplification of the float64 cancellation in
-``(index+j)·dx + shift - X``, invisible in float32, and ``e = eps_t + eps64·kap``):
-  weights  8·e·d·2^-d/dx^d      sum  16·eps_t + 4·eps64·kap      first moment  8·e·dx
-  constants 16·e·|c|            coordinates / affine  16·eps_t·(|X|+2dx) resp. 16·eps_t·sum|terms|
-Measured max error/tolerance over seeds 0..5, both tiers (``rec.stat``): see the hand-off report /
-``evidence/C06.json``; every ratio is <= 0.1.
+``(index+j)*dx + shift - X`` -- invisible in float32 -- and ``e = eps_t + eps64*kap``):
+  sign      w >= -16*eps_t*max w          (DESIGN says 4: the Peskin outer branch 5-2r-sqrt(..) is +-1.5 eps near
+                                           r = 2, measured worst -1*eps*max w; 16 keeps the required 10x headroom)
+  weights   16*e*d*2^-d/dx^d               (|phi| <= 1/2, |phi'| <= 1/2)
+  sum       64*eps_t + 4*eps64*kap         (DESIGN says 16 eps_t: measured |sum-1| up to 3.5 eps_t (float32 cosine 3-D,
+                                           64 single-precision cosines), so 16 would leave only 4.5x headroom)
+  first moment 24*e*dx       constants 4*4^d*e*|c|       coordinates 4*4^d*eps_t*(|X|+2dx)     affine: same on sum|terms|
+Measured max error/tolerance, seeds 0..5 quick and seeds 0,1 thorough (``rec.stat``, also in evidence/C06.json):
+weights 0.055, sum 0.055, first moment 0.073, sign 0.0625, constants 0.080, coordinates 0.065, affine 0.061.
 
-Deliberate breaks tried with ``tools/mut.sh`` (all on .../EulerianLagrangianGridCommunicator{2,3}D.py; quick tier)
-=====================================================================================================
- #  mutation                                                              verdict    first mechanism
- 1  2D cosine coefficient  0.25/dx -> 0.26/dx                              VIOLATION  weights!=closed-form-delta, sum-weights!=1
- 2  2D cosine argument     0.5*np.pi -> 0.5*3.14                           VIOLATION  weights!=closed-form-delta
- 3  3D peskin              3.0 - 2*r -> 3.1 - 2*r (first factor)           VIOLATION  weights!=closed-form-delta
- 4  2D peskin outer branch (r < 2.0) -> (r < 1.5)                          VIOLATION  weights!=closed-form-delta, sum-weights!=1
- 5  2D support offsets     arange(-w+1, w+1) -> arange(-w, w)              VIOLATION  weight-outside-four-nearest-cells
- 6  3D floor               (X - shift)//dx -> (X - shift + 0.5*dx)//dx     VIOLATION  weight-outside-four-nearest-cells
- 7  2D floor               (X - shift)//dx -> X//dx                        VIOLATION  weight-outside-four-nearest-cells
- 8  2D weights             (0.125/dx)**grid_dim -> (0.125)**grid_dim       VIOLATION  weights!=closed-form-delta
- 9  3D interpolation       drop  * (dx**grid_dim)  (scalar kernel)         VIOLATION  interp-constant!=constant
-10  2D interpolation window  both bounds +1 (patch)                        VIOLATION  interp-coordinate!=marker-position
-11  2D vector interpolation  component 1 reads eul_grid_field[0]           VIOLATION  interp-constant!=constant(vector)
-12  3D support: distances from index of wrong axis (z uses idx[1]) [the    VIOLATION  weights!=closed-form-delta
-    commented-out loop's bug, transplanted]
-13  2D peskin  np.fabs(support)/dx -> support/dx                           VIOLATION  weights!=closed-form-delta, negative-weight
-14  3D meshgrid order  stack((x,y,z)) -> stack((z,y,x))                    VIOLATION  weights!=closed-form-delta
-15  2D distances recomputed from the float floor instead of the stored    (equivalent on admissible inputs; HELD)
-    index (".reshape" of idx replaced by floor expr)                       — not a defect, documents the limit
+Deliberate breaks tried with ``tools/mut.sh --sed`` (files .../EulerianLagrangianGridCommunicator{2,3}D.py; quick
+tier, seed 0; every one reported VIOLATION, listed with the mechanisms that fired)
+==========================================================================================================
+ 1  2D cosine coefficient 0.25/dx -> 0.26/dx                    weights!=closed-form-delta, sum-weights!=1, interp-constant!=constant
+ 2  2D cosine argument 0.5*np.pi -> 0.5*3.14                    weights!=closed-form-delta (err/tol 100 in float32), sum-weights!=1
+ 3  3D Peskin 3.0 - 2r -> 3.1 - 2r (first factor only)          weights!=closed-form-delta, sum-weights!=1
+ 4  2D Peskin outer branch (r < 2.0) -> (r < 1.5)               weights!=closed-form-delta, sum-weights!=1
+ 5  2D support offsets arange(-w+1, w+1) -> arange(-w, w)       weights!=closed-form-delta (mass one cell off)
+ 6  3D floor (X-shift)//dx -> (X-shift+0.5dx)//dx               weight-outside-four-nearest-cells
+ 7  2D floor (X-shift)//dx -> X//dx                             weight-outside-four-nearest-cells
+ 8  2D Peskin (0.125/dx)**d -> (0.125)**d                       weights!=closed-form-delta, sum-weights!=1
+ 9  3D scalar interpolation without * dx**d                     interp-constant!=constant
+10  2D scalar interpolation x-window shifted by +1              interp-coordinate!=marker-position (diff 1.000 dx), interp-affine!=...,
+                                                                interpolation-raises (marker next to the admissible edge: clipped slice)
+11  2D vector interpolation: component 1 reads component 0      interp-constant!=constant(vector)
+12  3D support distances without + eul_grid_coord_shift         weights!=closed-form-delta
+13  2D Peskin np.fabs(support)/dx -> support/dx                 weights!=closed-form-delta, sum-weights!=1
+14  3D stack((x,y,z)) -> stack((z,y,x)) of the offset grids     weights!=closed-form-delta (transposed weights)
+15  2D distances from np.floor((X-shift)/dx) instead of the     weights!=closed-form-delta, peskin-first-moment!=0 (-1.000 dx): wrong
+    stored index ("floor-correction" of the source comment)     for exactly the markers in the floor-shifted branch (needs REQUIRE)
+16  3D vector interpolation: z-window of component 2 from idx[1] interpolation-raises (non-cubic grid: clipped slice cannot broadcast)
+17  2D Peskin sqrt argument 4 r^2 -> 4.001 r^2 (one factor)     weights!=closed-form-delta (err/tol 5 in float32), sum-weights!=1 (2e-5)
+Not a mutant but a limit worth knowing: adding 1e-9 to the floor quotient (index k instead of k-1 one ulp below a
+centre) is an equivalent change -- distances are recomputed from whichever index is stored, the extra cell gets
+phi(2+) = 0; the property holds for both, and the check is silent for both.
 """
 import numpy as np
 
